@@ -5,7 +5,7 @@ import warnings
 from .. import gen, canon
 from ..ref import urlcss
 from ..common import short
-from .c09 import gen_url, CSS_VALUES
+from .c09 import gen_url, CSS_VALUES, multi_uri_input
 
 LEVEL = "exploration"
 TECHNIQUE = ("runtime monitoring of the composition parse -> sanitize -> serialize -> re-parse: every node of the re-parsed "
@@ -79,6 +79,8 @@ HTML_WRAPS = ["%s", "<div>%s</div>", "<p>%s", "<table>%s</table>", "<table><tr><
 
 
 def mxss_input(rng):
+    if rng.random() < 0.12:
+        return multi_uri_input(rng)[0] + (rng.choice(PAYLOADS) if rng.random() < 0.3 else "")
     pay = rng.choice(PAYLOADS)
     if rng.random() < 0.2:
         pay = gen_url(rng)
@@ -240,7 +242,9 @@ def pick_case(rng):
             "scripting_out": rng.random() < 0.5, "src_frag": rng.random() < 0.6}
 
 
-SEEDS = ["<svg><style>&lt;img src=x onerror=alert(1)&gt;</style></svg>", "<noscript>&lt;/noscript&gt;&lt;img onerror=x&gt;</noscript>",
+SEEDS = ["<a ping=\"javascript:alert(1)\" href=\"http://[::1\">x</a>", "<a href=\"javascript:alert(1)\" ping=\"http://[::1\">x</a>",
+         "<a href=\"/ok\" ping=\"javascript:alert(1)\">x</a>", "<a ping=\"/ok\" href=\"javascript:alert(1)\">x</a>",
+         "<textarea>&lt;/textarea&gt;&lt;img src=x onerror=alert(1)&gt;</textarea>", "<svg><style>&lt;img src=x onerror=alert(1)&gt;</style></svg>", "<noscript>&lt;/noscript&gt;&lt;img onerror=x&gt;</noscript>",
          "<math><mtext><table><mglyph><style><!--</style><img title=\"--&gt;&lt;img src=1 onerror=alert(1)&gt;\">",
          "<form><math><mtext></form><form><mglyph><style></math><img src onerror=alert(1)>", "<svg></p><style><a id=\"</style><img src=1 onerror=alert(1)>\">",
          "<textarea>&lt;/textarea&gt;&lt;script&gt;x&lt;/script&gt;</textarea>", "<title>&lt;/title&gt;&lt;script&gt;x&lt;/script&gt;</title>",
